@@ -31,7 +31,8 @@ FeatCompat(f, g) ==
        ELSE IF Absorbs(f, g) \/ Absorbs(g, f) THEN "yes"
        ELSE IF \A i \in 1..3 : f.kv[i].v = g.kv[i].v \/ f.kv[i].x \/ g.kv[i].x THEN "unspec"  \* variables in opposite directions
        ELSE "no"
-  ELSE "unspec"                                      \* the two feature systems on one position: outside the statement
+  \* the two feature systems on one position: compatible exactly when the one-part side is absent, 'nb' or a variable
+  ELSE IF (f.t = "U" /\ Loose(f)) \/ (g.t = "U" /\ Loose(g)) THEN "yes" ELSE "no"
 
 Worst(S) == IF "no" \in S THEN "no" ELSE IF "unspec" \in S THEN "unspec" ELSE "yes"
 
@@ -72,7 +73,16 @@ BindingAllowed(px, py, x, y, v, r) ==
 Met(f, m1, m2) == LET l1 == Leaves(m1)  l2 == Leaves(m2) IN
                   {l2[i].f : i \in {j \in DOMAIN l1 : l1[j].f = f}} \cup {l1[i].f : i \in {j \in DOMAIN l2 : l2[j].f = f}}
 ConcreteFeat(g) == ~IsVarFeat(g) /\ ~IsIgnorable(g)
-AllowedInst(f, m1, m2) == LET b == Met(f, m1, m2) IN IF \E g \in b : ConcreteFeat(g) THEN b ELSE b \cup {f}
+(* three-part features are instantiated value by value: g is at least as specific as f *)
+Subsumes(f, g) == /\ f.t = "T" /\ g.t = "T"
+                  /\ \A i \in 1..3 : f.kv[i].k = g.kv[i].k /\ (f.kv[i].v = g.kv[i].v \/ f.kv[i].x)
+AllowedInst(f, m1, m2) ==
+  LET b == Met(f, m1, m2) IN
+  IF f.t = "T"
+  THEN \* a triple that met a strictly more specific one is replaced by a met triple it subsumes (never generalised, constants
+       \* are never lost); one that met nothing more specific stays as it is
+       IF \E g \in b : Subsumes(f, g) /\ g # f THEN {g \in b : Subsumes(f, g)} ELSE {f}
+  ELSE IF \E g \in b : ConcreteFeat(g) THEN b ELSE b \cup {f}
 InstanceOf(r, A, m1, m2) ==
   /\ Blind(r) = Blind(A)
   /\ Blind(m1) = Blind(m2)
